@@ -3,6 +3,10 @@ CONSTANTS
   HasPre = TRUE
   MaxSlot = 2
   MaxSig = 2
+  Cap = 2
+  Vals <- AllVals
+  Quorums <- AllQuorums
+  PrevDec = "code"
   Weaken <- NoWeaken
 INVARIANT TypeOK
 INVARIANT SigWindow
